@@ -25,6 +25,10 @@ ASSUMPTIONS = [
     'Pitch members are floats: a pitch is compared numerically, and enum identity is required only where the writer '
     'has a spelling for it (lo != hi, or lo == hi != 100); pitch (100, 100) is the elided default and is read back as '
     'the plain number 100.0, which equals PITCH_NORM',
+    'each of stack_start/stack_update/stack_stop is given to the constructor as None (omitted), an empty block or a '
+    'non-empty block, in all 27 combinations (enumerated as fixed inputs, and generated); the stack properties are '
+    'read in several orders and must give the same answer each time; export() runs on Sounds whose properties '
+    'nobody has read yet',
     'force_v2 is compared as "the sound is version 2" = force_v2 or any non-empty stack (stacks imply version 2)',
     'channel is a Channel member or an int (CHAN_USER_BASE+n spellings are not modelled by the class)',
     'no soundscript sample exists under /repo/tests (only two .wav files for wav_is_looped); fixed inputs are the '
@@ -97,7 +101,8 @@ def _tree():
 
 
 def _stack():
-    return st.one_of(st.none(), st.lists(_tree(), max_size=3))
+    """None (argument omitted), an empty stack, or a non-empty one - three distinct constructor inputs."""
+    return st.one_of(st.none(), st.just([]), st.lists(_tree(), min_size=1, max_size=3))
 
 
 def _sound():
@@ -134,6 +139,21 @@ def fixed(tier: str):
                     ['volume_fade_out', [['input_max', '0.5'], ['enabled', [['x', '1']]]]]],
          'stop': None, 'stack_names': ['', '', ''], 'force_v2': True},
     ]}
+    # every combination of {start, update, stop} x {None, empty, non-empty} given to the constructor
+    shapes = {'N': None, 'E': [], 'F': None}
+    n = 0
+    for a in 'NEF':
+        for b in 'NEF':
+            for c in 'NEF':
+                n += 1
+                stacks = {}
+                for key, code in (('start', a), ('update', b), ('stop', c)):
+                    stacks[key] = ([['import_stack', 'CS_' + key + '_default'],
+                                    [key + '_mixer', [['operator', 'sys_output'], ['nested', [['output', 'volume']]]]]]
+                                   if code == 'F' else shapes[code])
+                yield {'sounds': [dict(
+                    name='Stacks.' + a + b + c, waves=['common/null.wav'], channel=None, level=None, pitch=None,
+                    volume=None, stack_names=['', '', ''], force_v2=bool(n % 2), **stacks)]}
 
 
 # ---- building ------------------------------------------------------------------------------------------------
@@ -235,10 +255,26 @@ def _shape_desc(node):
 
 # ---- walking a Sound -------------------------------------------------------------------------------------------
 
+def _is_kv(obj) -> bool:
+    from srctools.keyvalues import Keyvalues
+    return isinstance(obj, Keyvalues)
+
+
 def _shape(kv):
+    """Plain-data form of a Keyvalues; anything else (the object under test handed out a wrong type) is kept as a
+    marker so that it shows up as a difference instead of an exception inside the walker."""
+    if not _is_kv(kv):
+        return ['<not a Keyvalues>', repr(kv)]
     if kv.has_children():
         return [kv.real_name, [_shape(c) for c in kv]]
     return [kv.real_name, kv.value]
+
+
+def _stack_shape(snd, key):
+    st_kv = getattr(snd, 'stack_' + key)
+    if not _is_kv(st_kv) or not st_kv.has_children():
+        return ['<stack_' + key + ' is not a Keyvalues block>', repr(st_kv)]
+    return [_shape(c) for c in st_kv]
 
 
 def _walk_scalar(v):
@@ -250,11 +286,11 @@ def _walk_scalar(v):
     return ['num', float(v)]
 
 
-def walk(snd):
+def walk(snd, stack_order=('stop', 'update', 'start')):
     import enum
     res = {
         'name': snd.name,
-        'waves': list(snd.sounds),
+        'waves': list(snd.sounds) if isinstance(snd.sounds, (list, tuple)) else ['<not a list>', repr(snd.sounds)],
         'channel': (['enum', snd.channel.name] if isinstance(snd.channel, enum.Enum)
                     else [type(snd.channel).__name__, snd.channel]),
         'stacks': {},
@@ -265,12 +301,18 @@ def walk(snd):
             res[kind] = [_walk_scalar(x) for x in pair]
         else:
             res[kind] = ['not a 2-tuple', repr(pair)]
+    # The three stack properties create their block on first access; reading one must not disturb another.  Read them
+    # in two different orders (the second pass in reverse) and require the same answer every time.
+    first = {key: _stack_shape(snd, key) for key in stack_order}
+    second = {key: _stack_shape(snd, key) for key in reversed(stack_order)}
     any_stack = False
     for key in ('start', 'update', 'stop'):
-        st_kv = getattr(snd, 'stack_' + key)
-        sh = [_shape(c) for c in st_kv]
-        res['stacks'][key] = sh
-        any_stack = any_stack or bool(sh)
+        if first[key] != second[key]:
+            res['stacks'][key] = ['<unstable: reading the stack properties in another order gives a different value>',
+                                  first[key], second[key]]
+        else:
+            res['stacks'][key] = first[key]
+        any_stack = any_stack or bool(res['stacks'][key])
     res['v2'] = bool(snd.force_v2 or any_stack)
     return res
 
@@ -335,6 +377,7 @@ def classify(d, ctx) -> bool:
     ctx.label('waves:' + ('0' if n == 0 else '1' if n == 1 else 'many'))
     nt = nt or n != 1
     stacks = [d[k] for k in ('start', 'update', 'stop')]
+    ctx.label('stack_args:' + ''.join('N' if x is None else 'F' if x else 'E' for x in stacks))
     if any(stacks):
         ctx.label('stacks')
         nt = True
@@ -361,40 +404,66 @@ def execute(desc, ctx):
         nt = classify(d, ctx) or nt
     ctx.nontrivial(nt)
     ctx.label('sounds_in_file:' + str(len(sounds)))
-    built = [build(d) for d in sounds]
     wants = [want_from_desc(d) for d in sounds]
-    for w, b in zip(wants, built):
-        dd = diff(w, walk(b))
+    # A separate set of objects is walked for the constructor check: walking touches the lazily created stack
+    # properties, and export() must be exercised on Sounds nobody has looked at yet.
+    for w, d in zip(wants, sounds):
+        probe = _guard(ctx, 'constructors', walk, build(d), ('stop', 'update', 'start'))
+        if probe is None:
+            return
+        dd = diff(w, probe)
         ctx.check(not dd, 'constructors', f'constructed Sound differs from the request: {dd!r}')
+    built = [build(d) for d in sounds]
 
     buf = io.StringIO()
     for snd in built:
         snd.export(buf)
     text = buf.getvalue()
     for w, b in zip(wants, built):
-        dd = diff(w, walk(b))
-        ctx.check(not dd, 'no_mutation', f'export() changed the Sound: {dd!r}')
+        after = _guard(ctx, 'no_mutation', walk, b, ('update', 'start', 'stop'))
+        if after is None:
+            return
+        dd = diff(w, after)
+        ctx.check(not dd, 'no_mutation', f'export() changed the Sound: {dd!r}\n text:\n{text}')
 
     parsed = Sound.parse(Keyvalues.parse(text))
+    if not ctx.check(isinstance(parsed, dict), 'roundtrip', f'Sound.parse returned {type(parsed).__name__}, not a dict'):
+        return
     ctx.check(list(parsed) == [w['name'].casefold() for w in wants], 'keys',
               f'Sound.parse keys {list(parsed)!r}, expected casefolded names of {[w["name"] for w in wants]!r}\n{text}')
     for w in wants:
         got = parsed.get(w['name'].casefold())
         if got is None:
             continue
-        dd = diff(w, walk(got))
+        got_w = _guard(ctx, 'roundtrip', walk, got)
+        if got_w is None:
+            return
+        dd = diff(w, got_w)
         fields = sorted({f for f, _, _ in dd})
         if not ctx.check(not dd, 'roundtrip',
                          f'Sound.parse(Keyvalues.parse(export)) differs in {fields}:\n'
                          + '\n'.join(f'  {f}: want {a!r} got {b!r}' for f, a, b in dd) + f'\n text:\n{text}',
                          fields=fields):
             return
+    # second generation from freshly parsed (un-walked) objects
     buf2 = io.StringIO()
-    for snd in parsed.values():
+    for snd in Sound.parse(Keyvalues.parse(text)).values():
         snd.export(buf2)
     text2 = buf2.getvalue()
     ctx.check(text2 == text, 'second_export_identical',
               f'second-generation text differs:\n--- first\n{text}\n--- second\n{text2}')
+
+
+def _guard(ctx, clause, fn, *args):
+    """Run a harness walker over an object handed out by the code under test.  The walkers are exercised on every
+    case of the unchanged tree, so an exception inside one means a field of the object has an unexpected type or
+    shape: that is a broken clause of the round trip, not a harness error."""
+    try:
+        return fn(*args)
+    except (TypeError, AttributeError, KeyError, IndexError, ValueError) as exc:
+        ctx.fail(clause, f'the value could not be walked: {type(exc).__name__}: {exc} '
+                         f'(a field of the object under test has an unexpected type)', exc_type=type(exc).__name__)
+        return None
 
 
 SUBS = [
@@ -402,6 +471,7 @@ SUBS = [
         must_hit=('level:range', 'pitch:range', 'volume:range', 'level:range_mixed', 'pitch:single_enum',
                   'level:single_num', 'volume:single_num', 'channel:enum', 'channel:int', 'channel:int_negative',
                   'waves:0', 'waves:1', 'waves:many', 'stacks', 'stack_nested_block', 'force_v2_no_stacks',
-                  'stack_empty_block', 'pitch:pair_same', 'unicode')),
+                  'stack_empty_block', 'pitch:pair_same', 'unicode')
+        + tuple('stack_args:' + a + b + c for a in 'NEF' for b in 'NEF' for c in 'NEF')),
 ]
 MATCHERS = {}
